@@ -82,6 +82,27 @@ Theorem c11_concurrent_log_api_independent : forall (cell_init : cell -> N) (env
 Proof. exact concurrent_api_independent. Qed.
 Print Assumptions c11_concurrent_log_api_independent.
 
+(* Generated names (`table_N`, `_expr_N`; NameGenerator / IdGenerator of utils/id_gen.rs): the generators are owned by the
+   call (AnchorContext, Lowerer, Resolver) -- the inventory has no static, atomic or thread_local row --, so the k-th name a
+   call generates is k: after ANY history, among ANY other threads (compiling or using the debug API), under ANY schedule.
+   Tie: stream generated-names compares the `verif:namegen` / `verif:pq-names` hook lines of every call with the lines the
+   same request produces alone in a fresh process. *)
+Theorem c11_generated_names_per_call : forall (cell_init : cell -> N) (env : N) hist progs sched i p t,
+  let g := fold_left (hstep cell_init env) hist g_init in
+  forallb reads_nothing_else p = true ->
+  nth_error progs i = Some p -> nth_error (snd (run cell_init env g (map spawn progs) sched)) i = Some t -> finished t = true ->
+  t_reads t = map N.of_nat (seq 0 (length (filter is_gen p))).
+Proof. exact generated_names_per_call. Qed.
+Print Assumptions c11_generated_names_per_call.
+
+(* two calls generating names concurrently with a third thread restarting the log: each reads 0, 1 (resp. 0, 1, 2) *)
+Example c11_ex_names_two_threads :
+  let ci := fun _ : cell => 7%N in
+  let r := run ci 0%N g_init (map spawn [[SGenName; SLogEntry 1%N; SGenName]; [SLogFinish; SLogStart]; [SGenName; SGenName; SSuppressInc; SGenName; SSuppressDec]])
+               [2; 0; 1; 2; 2; 1; 0; 2; 0; 2]%nat in
+  option_map t_reads (nth_error (snd r) 0) = Some [0%N; 1%N] /\ option_map t_reads (nth_error (snd r) 2) = Some [0%N; 1%N; 2%N].
+Proof. vm_compute. auto. Qed.
+
 (* the schedule that refuted the statement before 2f50a3c (thread 0 starts a log, thread 1 is the compilation --
    load_std_lib: suppress; ...; drop; log entry --, thread 2 restarts the log in between): the compilation completes *)
 Example c11_ex_former_f10j_schedule :
